@@ -17,7 +17,7 @@ var Fetch = harness.Define(harness.Opts{Name: "fetch", Rule: ruleFetch, Quick: 3
 const rulePar = "Fetcher.Run WITHOUT virtual time on 4 Ps (-race): 2-4 fetchers, batch 1-6, 2-24 ranges, a log that answers at once after finite per-start error bursts (mostly 429), short reads, and a callback barrier that releases the workers together so that they finish their ranges in the same instant; one-shot, never stopped. Non-trivial: >= 2 fetchers"
 
 var Par = harness.Define(harness.Opts{Name: "parallel", Rule: rulePar, Quick: 600, Thorough: 6000, Crashy: true}, genPar, checkPar)
-var Scan = harness.Define(harness.Opts{Name: "scan", Rule: ruleScan, Quick: 1800, Thorough: 8000, Crashy: true}, genScan, checkScan)
+var Scan = harness.Define(harness.Opts{Name: "scan", Rule: ruleScan, Quick: 1800, Thorough: 6000, Crashy: true}, genScan, checkScan)
 
 // poolSanity guards the oracle's "by construction" knowledge: the generated good leaves parse in the
 // repository's parser and the damaged ones do not. A failure here is a harness problem, not a verdict.
